@@ -20,11 +20,22 @@ condition is needed) and every source without `<`:
                                extension of the model;
 3. `C02_convertBig_err_iff`  — the `err` answer exactly: `UnescapeTreeprocessor` meets `STX digits ETX` with a number
                                of at least 0x110000 in a text, tail or attribute value (`chr()` raises `ValueError`);
-                               nothing else raises (`C02_convertBig_err_only_unescape`).
+                               nothing else raises (`C02_convertBig_err_only_unescape`);
+4. **`C02_convertBig_ok`**   — and that never happens: `convertBig pc src = ok out` for EVERY `<`-free source and every
+                               configuration.  The invariant behind it (`C02_stx_token_invariant`, a strengthening of
+                               `C05_inline_stx_invariant`): in every text, tail and stashed string every STX is followed
+                               by `k`, by `w`, or by a COMPLETE escape token — ASCII digits, ETX, number below 0x110000;
+                               in an attribute value the same, except that the last token may be cut short by `getLink`
+                               (`data[start:-2]`), in which case it runs to the end of the value and has no ETX.  Every
+                               pattern cuts the data in front of a delimiter of Markdown's syntax, never in front of a
+                               digit or an ETX; pasting (placeholder → stashed string) never joins two digit runs.
+                               Consequences for the model with its own fuel: `C02_convert_never_err`,
+                               `C02_convert_ok_or_stack_fuel`.
 
-Only property statements live here; proofs in `MdVerif/Lemmas/C02Big.lean`.  Core Lean only.
+Only property statements live here; proofs in `MdVerif/Lemmas/C02Big.lean` and `MdVerif/Lemmas/C02Big{Str,Pat,Run,Tree}.lean`
+(the last four mirror `Lemmas/AmpFull*.lean` of C05 for the stronger invariant).  Core Lean only.
 -/
-import MdVerif.Lemmas.C02Big
+import MdVerif.Lemmas.C02BigTree
 
 namespace MdVerif.C02Big
 open Py Block Inline InlineLocal NoCtl Vocab2 MdVerif.C08 MdVerif.C08Src
@@ -130,6 +141,67 @@ theorem C02_convertBig_err_only_unescape (pc : Pipeline.Cfg) (src : Str) (hlt : 
   obtain ⟨-, rt, refs, t, st, h1, h2, s, hs, hb⟩ := (C02_convertBig_err_iff pc src hlt).1 h
   exact ⟨rt, refs, t, st, h1, h2, s, hs, hb⟩
 
+/-! ### 4. the `err` answer is unreachable -/
+
+open TokFull in
+/-- **The STX-token invariant of the inline stage** (strengthening `C05_inline_stx_invariant`).  If in every text and
+    tail of the tree handed to `InlineProcessor.run` every STX is followed by `k`, `w` or a complete escape token
+    `d₁…d_k ETX` (ASCII digits, `k ≥ 1`, number below 0x110000), and in every attribute value the same up to a
+    truncation at the end of the value (`NodeS`; the block parser's tree has no STX at all), then the same holds for
+    the tree it returns — whatever the 16 patterns stash, cut and splice, the placeholder leaks F-C10-1/2 and the
+    negative end index of `getLink` included; for any fuels, any `ESCAPED_CHARS`, any (STX-free) reference
+    definitions. -/
+theorem C02_stx_token_invariant {cfg : Inline.Cfg} (hrefs : RefsS cfg) (g2 g : Nat) {root t : Node}
+    {stack : List Path} {st st' : Inline.St} (h : runLoop cfg g2 g root stack st = some (t, st'))
+    (hd : root.Forall NodeS) (hs : StashS st.stash) : t.Forall NodeS :=
+  runLoop_S hrefs g2 g root stack st t st' h hd hs
+
+open TokFull in
+/-- **`UnescapeTreeprocessor` does not raise on a tree with the invariant**: every match of `STX(\d+)ETX` in a text, a
+    tail or an attribute value is a complete token, so `chr(int(…))` gets a number below 0x110000 (a token cut short
+    in an attribute value has no ETX and is not matched). -/
+theorem C02_unescape_never_raises {n : Node} (h : n.Forall NodeS) : (TreeProc.unescapeTree n).isSome = true :=
+  unescapeTree_S h
+
+open TokFull in
+/-- the string level: no bad token in a string with the invariant (up to truncation) -/
+theorem C02_no_bad_token {s : Str} (h : SOkA s = true) : ¬ BadToken s := by
+  intro hb
+  have := unescapeText_sokA h
+  rw [(TreeProc.C02_unescape_raises_iff s).2 hb] at this
+  cases this
+
+/-- **C02 for the core pipeline on the sufficient fuel: `convertBig` answers `ok` on EVERY `<`-free source**, for
+    every configuration (tab length, output format, `ESCAPED_CHARS`, block-level set arbitrary): the conversion
+    terminates and nothing raises — neither `chr()` in `UnescapeTreeprocessor` (the only candidate left by
+    `C02_convertBig_err_iff`) nor anything else. -/
+theorem C02_convertBig_ok (pc : Pipeline.Cfg) (src : Str) (hlt : '<' ∉ src) : ∃ out, convertBig pc src = .ok out :=
+  TokFull.convertBig_ok pc src (by simpa using hlt)
+
+/-- in particular never `err` -/
+theorem C02_convertBig_never_err (pc : Pipeline.Cfg) (src : Str) (hlt : '<' ∉ src) : convertBig pc src ≠ .err := by
+  obtain ⟨out, h⟩ := C02_convertBig_ok pc src hlt
+  rw [h]; simp
+
+/-- **the model with its own fuel never answers `err` on a `<`-free source** (this closes the "tested, not proved"
+    remark at `C02_escape_entry_roundtrip` in `Props/C02Inline.lean`, and removes the `err` alternative of
+    `C05_full_total`) -/
+theorem C02_convert_never_err (pc : Pipeline.Cfg) (src : Str) (hlt : '<' ∉ src) : Pipeline.convert pc src ≠ .err :=
+  fun h => C02_convertBig_never_err pc src hlt (C02_convertBig_refines_err pc src h)
+
+/-- **what is left of C02 for `Pipeline.convert` on `<`-free sources**: it answers `ok out` — the answer of the total
+    `convertBig` — or it answers `oof` because the LINEAR fuel `16·size + 64` of the stack loop of
+    `InlineProcessor.run` ran out (`C02_run_total_full`, never observed); nothing else. -/
+theorem C02_convert_ok_or_stack_fuel (pc : Pipeline.Cfg) (src : Str) (hlt : '<' ∉ src) :
+    (∃ out, Pipeline.convert pc src = .ok out ∧ convertBig pc src = .ok out) ∨
+    (Pipeline.convert pc src = .oof ∧ ∃ rt refs, parseDocument pc.tab (Pipeline.prepare pc src) = some (rt, refs) ∧
+      Inline.run { esc := pc.esc, refs := refs.reverse } rt = none) := by
+  obtain ⟨out, ho⟩ := C02_convertBig_ok pc src hlt
+  rcases C02_convert_cases pc src hlt with h | h
+  · exact Or.inl ⟨out, by rw [h, ho], ho⟩
+  · exact Or.inr h
+
+
 /-! ### non-vacuity -/
 
 /-- a link inside the text of a link, hidden from the link pattern until the tree walk comes back to the `strong`
@@ -165,5 +237,20 @@ example : TreeProc.unescapeText 0 (TreeProc.STX :: ("1114112".toList ++ [TreePro
 example :
     after {} (root [{ tag := .name "p".toList, text := some (TreeProc.STX :: ("1114112".toList ++ [TreeProc.ETX])) }]) []
       = .err := by decide +kernel
+
+/-- the invariant is not trivially true: complete tokens, placeholders, a token cut short at the end of an attribute
+    value (as in `cutSrc`); rejected: a token whose number `chr()` refuses, a cut token in a text, a cut token followed
+    by anything but digits in an attribute value, STX before another letter -/
+example : TokFull.SOk "x\x02klzzwxh:0000\x03 \x0242\x03 \x02wzxhzdk:1\x03 \x021114111\x03".toList = true ∧
+    TokFull.SOkA "\"(\x024".toList = true ∧ TokFull.SOkA "\"(\x02".toList = true ∧
+    TokFull.SOk "\x021114112\x03".toList = false ∧ TokFull.SOkA "\x021114112\x03".toList = false ∧
+    TokFull.SOk "\"(\x024".toList = false ∧ TokFull.SOkA "\x024 \x03".toList = false ∧
+    TokFull.SOk "\x02amp\x03".toList = false := by decide
+
+/-- the tree of `cutSrc` behind the inline stage: the `href` holds the cut token, the tail the lone ETX — the
+    invariant holds (`SOkA` for the attribute value, `SOk` for the tail), and nothing is left to raise -/
+example : TokFull.SOkA "\"(\x024".toList = true ∧ TokFull.SOk "\x03".toList = true := by decide
+
+example : '<' ∉ bigSrc := by decide
 
 end MdVerif.C02Big
